@@ -191,7 +191,8 @@ def rule_once(ctx, f):
                 if d is not None:
                     for bj, tj in F.calls(b):
                         if bj != bi and any(F.op_local(a) == d or (F.op_local(a) is not None and any(x[0] == "call" and x[2] == bi for x in fl.origins(F.op_local(a)))) for a in tj["args"]):
-                            if last_seg(F.callee_name(tj)) in ("map_err", "branch", "unwrap", "expect", "ok_or", "is_err", "is_ok"):
+                            # any consumer of the result other than dropping it: map_err / ? / unwrap / unwrap_or_else(|_| panic) / ok().expect ..
+                            if last_seg(F.callee_name(tj)) not in ("drop", "drop_in_place", "forget"):
                                 used = True
                     for i, bb in enumerate(b["blocks"]):
                         tt = bb["term"]
